@@ -857,14 +857,19 @@ func (c *control) dirInt(colon, at bool, params []any, base int) {
 		out = ((*big.Int)(ta)).Append(nil, base)
 		neg = ((*big.Int)(ta)).Sign() < 0
 	default:
+		// Not an integer, use the Aesthetic directive format as documented.
 		neg = true // stops @ addition of a +
 		colon = false
 		p := *slip.DefaultPrinter()
 		p.ScopedUpdate(c.scope)
-		p.Escape = true
-		p.Readably = true
+		p.Escape = false
+		p.Readably = false
 		p.Base = 10
-		out = p.Append(nil, ta, 0)
+		if ss, ok := ta.(slip.String); ok {
+			out = []byte(ss)
+		} else {
+			out = p.Append(nil, ta, 0)
+		}
 	}
 	if at && !neg {
 		out = append([]byte{'+'}, out...)
